@@ -223,6 +223,25 @@ impl<W: tokio::io::AsyncWrite + Unpin> tokio::io::AsyncWrite for ProgressBarIter
         })
     }
 
+    fn poll_write_vectored(
+        mut self: Pin<&mut Self>,
+        cx: &mut Context<'_>,
+        bufs: &[io::IoSlice<'_>],
+    ) -> Poll<io::Result<usize>> {
+        Pin::new(&mut self.it)
+            .poll_write_vectored(cx, bufs)
+            .map(|poll| {
+                poll.map(|inc| {
+                    self.progress.inc(inc as u64);
+                    inc
+                })
+            })
+    }
+
+    fn is_write_vectored(&self) -> bool {
+        self.it.is_write_vectored()
+    }
+
     fn poll_flush(mut self: Pin<&mut Self>, cx: &mut Context<'_>) -> Poll<io::Result<()>> {
         Pin::new(&mut self.it).poll_flush(cx)
     }
@@ -300,6 +319,10 @@ impl<S: futures_core::Stream + Unpin> futures_core::Stream for ProgressBarIter<S
             std::task::Poll::Pending => {}
         }
         item
+    }
+
+    fn size_hint(&self) -> (usize, Option<usize>) {
+        self.it.size_hint()
     }
 }
 
